@@ -81,9 +81,15 @@ def stream_wellpop(ctx, ntables):
     S = ctx.stream("O-exact", "noise-free Synthesizer(single cluster) on tables whose every distinct row is repeated >= range_low_threshold times "
                    "(1-4 columns of every type, float scales 1e-9..1e9, ints up to 1e12, dates, second-resolution timestamps, nulls, shuffled rows): "
                    "sample() must equal the input as a multiset of rows; non-trivial = >= 2 distinct rows")
-    for _ in range(ntables):
+    shared = SingleClustering()          # one strategy object serving every third table (tables of different widths in turn)
+    for ti in range(ntables):
         df, kinds, ap, bp = gen_wellpop(R)
-        out = Synthesizer(df, anonymization_params=ap, bucketization_params=bp, clustering=SingleClustering()).sample()
+        try:
+            out = Synthesizer(df, anonymization_params=ap, bucketization_params=bp, clustering=shared if ti % 3 == 2 else SingleClustering()).sample()
+        except (IndexError, KeyError) as e:
+            if ti % 3 != 2: raise
+            ctx.oracle_fail(f"a SingleClustering object used for an earlier table raised {type(e).__name__} on a table of kinds {kinds}", {"kinds": kinds, "rows": len(df)}, "exact-strategy-reuse")
+            continue
         a = Counter(tuple(canon(v) for v in row) for row in df.itertuples(index=False, name=None))
         b = Counter(tuple(canon(v) for v in row) for row in out.itertuples(index=False, name=None))
         S.count((repr(df.values.tolist()),), len(a) >= 2, {"kinds": kinds, "rows": len(df), "distinct_rows": len(a)}, tag="/".join(kinds))
